@@ -122,7 +122,7 @@ def shards(tier, seed):
     )
     # generated legal mark-up (the C19 slot product: case name / citation / later mentions in style tags), each document
     # cleaned with the three step lists in both orders within one execution
-    out += dd.residue_shards("markup-docs-AC", "mkdocs", "AC", 32)
+    out += dd.residue_shards("markup-docs-AC", "mkdocs", "AC", 32, {"tier": tier})
     for tok in ("AC", "HS"):
         out += dd.residue_shards("transform-sensitive-" + tok, "ts", tok, 16)
     out += dd.residue_shards("post-AC", "post", "AC", 16, {"more": 1 if tier == "quick" else 2})
@@ -150,6 +150,7 @@ def cases_of(sh):
     if sh["kind"] == "mkdocs":
         from mc.props import c19
 
+        c19._TIER["t"] = sh.get("tier", "quick")  # the quick product of C19 unless this is the thorough tier
         fwd = c19.STEPS
         return (
             {"part": sh["part"], "tok": sh["tok"], "text": m, "markup": True, "steps": fwd[0], "steps_seq": seq}
